@@ -252,7 +252,7 @@ func loadKnown(cfg *Config) (map[string]bool, map[string]KnownFinding) {
 func runHarness(ld *loaded, h harnessRef, cfg *Config, known map[string]bool, deadline time.Time) (res *HarnessResult) {
 	t0 := time.Now()
 	res = &HarnessResult{ID: h.id, Pkg: h.pkg.Pkg.Path(), Func: h.fn.Name()}
-	opts := Options{Tier: cfg.Tier, Known: known, Deadline: deadline}
+	opts := Options{Tier: cfg.Tier, Known: known, Deadline: deadline, TimeoutMs: 60000}
 	if cfg.Tier == "thorough" {
 		opts.TimeoutMs = 120000
 		opts.SecondCheck = true
